@@ -177,6 +177,22 @@ def decode_bytes(I, b, args, kwargs):
     if isinstance(enc, str) and enc.lower() in ("ascii", "us-ascii") and errors == "replace":
         # one character per octet; octets >= 0x80 become U+FFFD (kept as the octets they came from)
         return SStr("ascii_replace", [SBytes(list(b.segs))])
+    if isinstance(enc, str) and enc.lower() in ("ascii", "us-ascii") and errors == "strict":
+        # strict ASCII: UnicodeDecodeError iff some octet is >= 0x80 (octets of a fixed number only)
+        fb = B.fix(I, b)
+        n = fb.fixed_len()
+        if n is not None:
+            bb = SBytes(fb.segs).expand()
+            high = [bb.at(i) >= 128 for i in range(n)]
+            if high and I.path.decide(z3.Or(*high)):
+                I.raise_py(UnicodeDecodeError, "ascii", b"", 0, 1, "ordinal not in range(128)")
+            return SStr("ascii_replace", [SBytes(list(b.segs))])
+        src = getattr(b.segs[0], "filtered_from", None) if len(b.segs) == 1 else None
+        if src is not None:
+            high = [z3.And(c if not isinstance(c, bool) else z3.BoolVal(c), iexpr(x) >= 128) for x, c in zip(src.items, src.conds)]
+            if high and I.path.decide(z3.Or(*high)):
+                I.raise_py(UnicodeDecodeError, "ascii", b"", 0, 1, "ordinal not in range(128)")
+            return SStr("ascii_replace", [SBytes(list(b.segs))])
     raise Unsupported(f"bytes.decode({enc!r}) on symbolic bytes")
 
 
